@@ -28,8 +28,9 @@ type Env struct {
 
 	cancel  context.CancelFunc
 	runDone chan error
-	Err     string // harness-level problem (lost barrier, timeout)
-	Retries int    // channel barriers that had to be re-sent
+	Err     string         // harness-level problem (lost barrier, timeout)
+	Retries int            // channel barriers that had to be re-sent
+	Dead    map[int64]bool // channel workers found stopped (Run returned): no barriers through them any more
 }
 
 func (e *Env) record(ev Event, snap Snapshot) {
@@ -262,6 +263,9 @@ func (e *Env) mainBarrier() bool {
 // chanBarrier returns once the channel worker has handled everything queued before: an
 // updateChannelTooLong far beyond the difference limit only calls OnChannelTooLong.
 func (e *Env) chanBarrier(c int64) bool {
+	if e.Dead[c] {
+		return true
+	}
 	for attempt := 0; attempt < 3; attempt++ {
 		deadline := time.Now().Add(10 * time.Second)
 		for e.W.chanDiffBusy(c) && time.Now().Before(deadline) {
@@ -274,13 +278,25 @@ func (e *Env) chanBarrier(c int64) bool {
 		tl := &tg.UpdateChannelTooLong{ChannelID: c}
 		tl.SetPts(1 << 30)
 		e.Push(&tg.Updates{Updates: []tg.UpdateClass{tl}})
-		select {
-		case <-ch:
-			return true
-		case <-time.After(20 * time.Second):
-			e.Retries++
-			// only a barrier dropped by sendOut's drain can get here; a merely slow one never does
+		waitUntil := time.Now().Add(20 * time.Second)
+		for answered := false; !answered && time.Now().Before(waitUntil); {
+			select {
+			case <-ch:
+				return true
+			case <-time.After(2 * time.Millisecond):
+				// a worker that has returned from Run will never answer: that is a fact about the
+				// implementation (its done channel is closed), not latency
+				if updates.VerifC02ChannelStopped(e.M, c) {
+					if e.Dead == nil {
+						e.Dead = map[int64]bool{}
+					}
+					e.Dead[c] = true
+					return true
+				}
+			}
 		}
+		e.Retries++
+		// only a barrier dropped by sendOut's drain can get here; a merely slow one never does
 	}
 	if e.Err == "" {
 		e.Err = fmt.Sprintf("channel %d barrier lost", c)
